@@ -6,6 +6,7 @@ import (
 	"sync"
 	"time"
 
+	"golang.org/x/crypto/ssh"
 	"golang.org/x/crypto/ssh/agent"
 
 	"github.com/theparanoids/ysshra/agent/shimagent"
@@ -355,5 +356,104 @@ func oversizeForward(r *ev.Run) {
 		}
 		r.Count("over-long raw requests handed to the shim beside other clients", 3)
 		r.Nontrivial("oversize-forward")
+	})
+}
+
+// handedOutSigners: signers returned by Signers() outlive the call and are used later, while other clients go on using
+// the shim. A signature through such a signer is one more exchange on the single connection to the underlying agent:
+// it is exclusive like any other (no request reaches the underlying agent while another one is pending), it yields a
+// signature that verifies, and everybody else gets their own replies.
+func handedOutSigners(r *ev.Run) {
+	c := r.Case("handed-out-signers", 0)
+	if c == nil {
+		return
+	}
+	r.Eval(1)
+	r.Guard(c, "signers used beside other clients", nil, func() {
+		ag := wire.New()
+		defer ag.Close()
+		sock, err := ag.Listen()
+		if err != nil {
+			r.Inconclusive(err.Error())
+			return
+		}
+		pool := gen.Pool()
+		ag.Keyring.Add(agent.AddedKey{PrivateKey: pool[0].Priv, Comment: "k0"})
+		ag.Keyring.Add(agent.AddedKey{PrivateKey: pool[9].Priv, Comment: "k9"})
+		s, err := shimagent.New(shimagent.Option{Address: sock})
+		if err != nil {
+			r.Violation(c, "shim-construction-fails-without-fault", err.Error(), nil)
+			return
+		}
+		signers, err := s.Signers()
+		if err != nil || len(signers) != 2 {
+			r.Violation(c, "signers-fails-without-fault", fmt.Sprintf("%d signers, err=%v", len(signers), err), nil)
+			return
+		}
+		// sign requests take a while (a key that waits for a touch)
+		ag.SetPlan(func(_ int, req []byte) wire.Action {
+			if len(req) > 0 && req[0] == 13 {
+				return wire.Action{Kind: wire.Honest, Delay: 250 * time.Millisecond, Fragment: true}
+			}
+			return wire.Action{Kind: wire.Honest}
+		})
+		p0 := ag.Pipelined()
+		var wg sync.WaitGroup
+		var mu sync.Mutex
+		var bad []string
+		note := func(s string) { mu.Lock(); bad = append(bad, s); mu.Unlock() }
+		for si, sg := range signers {
+			wg.Add(1)
+			go func(si int, sg ssh.Signer) {
+				defer wg.Done()
+				for k := 0; k < 3; k++ {
+					data := []byte(fmt.Sprintf("signer-%d-%d", si, k))
+					sig, err := sg.Sign(nil, data)
+					if err != nil || sg.PublicKey().Verify(data, sig) != nil {
+						note(fmt.Sprintf("signature through a handed-out signer: err=%v", err))
+						return
+					}
+				}
+			}(si, sg)
+		}
+		for w := 0; w < 3; w++ {
+			wg.Add(1)
+			go func(w int) {
+				defer wg.Done()
+				for k := 0; k < 12; k++ {
+					time.Sleep(40 * time.Millisecond)
+					if (w+k)%2 == 0 {
+						if l, err := s.List(); err != nil || len(l) != 2 {
+							note(fmt.Sprintf("listing beside a pending signature: %d identities, err=%v", len(l), err))
+							return
+						}
+					} else {
+						tag := append([]byte{200}, []byte(fmt.Sprintf("beside-signer-%d-%d", w, k))...)
+						if resp, err := s.Forward(tag); err != nil || !bytes.Equal(resp, tag) {
+							note(fmt.Sprintf("relayed request beside a pending signature: err=%v, reply %q", err, trunc(resp)))
+							return
+						}
+					}
+				}
+			}(w)
+		}
+		done := make(chan struct{})
+		go func() { wg.Wait(); close(done) }()
+		select {
+		case <-done:
+		case <-time.After(ev.OpTimeout() + 20*time.Second):
+			r.Violation(c, "operation-does-not-complete:handed-out-signers", "signatures through handed-out signers beside other clients did not all return", nil)
+			return
+		}
+		if len(bad) > 0 {
+			r.Violation(c, "wrong-reply:handed-out-signers", fmt.Sprintf("%s (%d requests reached the underlying agent while another exchange was pending)", bad[0], ag.Pipelined()-p0), bad)
+			return
+		}
+		if n := ag.Pipelined() - p0; n > 0 {
+			r.Violation(c, "upstream-request-pipelined:handed-out-signers", fmt.Sprintf("%d requests reached the underlying agent while another exchange was pending on the same connection", n), nil)
+			return
+		}
+		r.Count("signatures through handed-out signers beside other clients (exchanges exclusive)", 6)
+		r.Nontrivial("handed-out-signers")
 	})
 }
